@@ -32,7 +32,7 @@ CHECKS = {
                       "documented notation ambiguities (numbers, one-element sets) are not counted as failures",
         "technique": "property-based testing (rapid): round-trip oracle over structurally generated wire values and schemas",
         "tests": [
-            {"name": "TestC12", "quick": 40000, "thorough": 2400000},
+            {"name": "TestC12", "quick": 160000, "thorough": 2400000},
         ],
     },
     "C03": {
@@ -61,8 +61,8 @@ CHECKS = {
                       "operations, the model-API-built operations are exercised by the L2 checks",
         "technique": "property-based testing (rapid): stateful history generation, differential against an executable reference model",
         "tests": [
-            {"name": "TestC03", "quick": 2400, "thorough": 160000},
-            {"name": "TestC03NoRefs", "quick": 1600, "thorough": 80000},
+            {"name": "TestC03", "quick": 8000, "thorough": 160000},
+            {"name": "TestC03NoRefs", "quick": 6000, "thorough": 80000},
         ],
     },
     "C04": {
@@ -88,8 +88,8 @@ CHECKS = {
         "level_note": "trusts refdb's commit procedure; invariants I1-I3 and I5 are recomputed from Database.List independently of refdb",
         "technique": "property-based testing (rapid): stateful generation, invariants over every reachable state + reference model + twin differential",
         "tests": [
-            {"name": "TestC04", "quick": 2000, "thorough": 160000},
-            {"name": "TestC04Independence", "quick": 1000, "thorough": 80000},
+            {"name": "TestC04", "quick": 8000, "thorough": 160000},
+            {"name": "TestC04Independence", "quick": 4000, "thorough": 80000},
         ],
     },
     "C06": {
@@ -108,7 +108,7 @@ CHECKS = {
         "level_note": "trusts refdb's final-state duplicate scan (a full scan over canonical values)",
         "technique": "property-based testing (rapid): stateful generation biased to index hand-overs, invariant scan + reference model",
         "tests": [
-            {"name": "TestC06", "quick": 2400, "thorough": 200000},
+            {"name": "TestC06", "quick": 10000, "thorough": 200000},
         ],
     },
     "C02": {
@@ -133,7 +133,7 @@ CHECKS = {
         "level_note": "trusts Database.List/GetReferences as observation points and refdb for the expected position of natural failures",
         "technique": "property-based testing (rapid): fault-injected stateful histories, snapshot invariants + twin differential",
         "tests": [
-            {"name": "TestC02", "quick": 3000, "thorough": 240000},
+            {"name": "TestC02", "quick": 12000, "thorough": 240000},
         ],
     },
     "C15": {
@@ -153,7 +153,7 @@ CHECKS = {
         "level_note": "trusts refdb's name resolution (a two-pass substitution over canonical values)",
         "technique": "property-based testing (rapid): stateful generation biased to named inserts, reference model",
         "tests": [
-            {"name": "TestC15", "quick": 4000, "thorough": 300000},
+            {"name": "TestC15", "quick": 16000, "thorough": 300000},
         ],
     },
     "C19": {
@@ -182,9 +182,9 @@ CHECKS = {
                       "(saved crashers are the reproducible unit)",
         "technique": "property-based testing (rapid) with structural JSON corruption + native go fuzzing (thorough)",
         "tests": [
-            {"name": "TestC19Decode", "quick": 120000, "thorough": 8000000},
-            {"name": "TestC19Txn", "quick": 6000, "thorough": 400000},
-            {"name": "TestC19Wire", "quick": 2400, "thorough": 120000},
+            {"name": "TestC19Decode", "quick": 300000, "thorough": 8000000},
+            {"name": "TestC19Txn", "quick": 20000, "thorough": 400000},
+            {"name": "TestC19Wire", "quick": 4000, "thorough": 120000},
             # the seed corpora of the native fuzz targets run as ordinary tests in both tiers
             {"name": "FuzzC19Decode", "kind": "plain", "quick": 1, "thorough": 1, "shards": {"quick": 1, "thorough": 1}},
             {"name": "FuzzC19Txn", "kind": "plain", "quick": 1, "thorough": 1, "shards": {"quick": 1, "thorough": 1}},
@@ -213,7 +213,7 @@ CHECKS = {
         "level_text": "exploration: generated index configurations x batch histories x application orders, all indexes and lookups compared with a scan after every batch",
         "level_note": "scan oracle over canonical values; the order inside genuine multi-row notifications is not controllable (twin cache only adds evidence)",
         "technique": "property-based testing (rapid): generated histories with generator-owned application order, partition/scan invariants",
-        "tests": [{"name": "TestC05", "quick": 8000, "thorough": 500000}],
+        "tests": [{"name": "TestC05", "quick": 30000, "thorough": 500000}],
     },
     "C08": {
         "rule": "a table content (0-12 rows with colliding values: near copies of earlier rows) and a sequence of 1-4 queries (each a list of 0-4 well-typed conditions, or a sub-list of an earlier query) evaluated one after the other on the same caches and databases, after which every cache index must still agree with a scan (all eight "
@@ -223,8 +223,10 @@ CHECKS = {
                 "operation must return exactly the uuids an independent evaluator of RFC 7047 5.1 returns (refdb.EvalCond), hence the "
                 "same answer under every configuration. TestC08API (server + connected client monitoring everything, one index configuration per case) checks "
                 "WhereAll/WhereAny/WhereCache/Where(model)/Where(models...).List against predictions (all / any / predicate / first index, in the order uuid, "
-                "schema indexes, client indexes, that finds a row) and that executing the generated Delete/Update/Mutate operations changes exactly the listed rows "
-                "(database compared in full, affected-row counts summed). Non-trivial = >=2 conditions, >=1 index "
+                "schema indexes, client indexes, that finds a row) and that executing the operations generated by Delete(), Update(model, 1-2 drawn columns with drawn values) "
+                "or Mutate(model, a drawn valid mutation of the set, map or a numeric column) has exactly the effect the reference interpreter computes for one "
+                "operation per listed row (database compared in full, affected-row counts summed; where that effect is a constraint violation the request "
+                "must be rejected and change nothing). Non-trivial = >=2 conditions, >=1 index "
                 "configured, answer non-empty and a strict subset of the table; distinct = hash of (functions x column kinds, configurations).",
         "assumptions": COMMON_ASSUMPTIONS + [
             "includes/excludes on optional columns are documented as unsupported: an error is accepted there, a wrong answer is not",
@@ -233,8 +235,8 @@ CHECKS = {
         "level_text": "exploration: generated contents x condition lists x index configurations with an independent condition evaluator and the metamorphic 'indexes do not matter' relation",
         "level_note": "trusts refdb.EvalCond (30 lines, written from RFC 7047 5.1)",
         "technique": "property-based testing (rapid): differential against an independent evaluator + metamorphic relation across index configurations",
-        "tests": [{"name": "TestC08", "quick": 3000, "thorough": 160000},
-                  {"name": "TestC08API", "quick": 2400, "thorough": 60000}],
+        "tests": [{"name": "TestC08", "quick": 8000, "thorough": 160000},
+                  {"name": "TestC08API", "quick": 6000, "thorough": 60000}],
     },
     "C09": {
         "rule": "a generated schema over the whole type space (every atomic type as key and value, 0..1 / 1..1 / 0..n / 1..n / bounded, enums of every "
@@ -251,7 +253,7 @@ CHECKS = {
         "level_text": "exploration: generated schemas x values round-tripped through the real mapper and JSON codec, plus a wrong-type matrix",
         "level_note": "values are compared in the harness' canonical form obtained by reflection (not through the mapper)",
         "technique": "property-based testing (rapid): round-trip oracle + negative typing matrix",
-        "tests": [{"name": "TestC09", "quick": 30000, "thorough": 2000000}],
+        "tests": [{"name": "TestC09", "quick": 100000, "thorough": 2000000}],
     },
     "C10": {
         "rule": "TestC10Exhaustive enumerates completely, per element type (integer, real, boolean, string, uuid): all pairs of ordered lists over a "
@@ -270,7 +272,7 @@ CHECKS = {
         "technique": "property-based testing (rapid) + exhaustive enumeration of a small universe: inverse law apply(a, diff(a,b)) = b",
         "tests": [
             {"name": "TestC10Exhaustive", "kind": "plain", "quick": 1, "thorough": 1, "shards": {"quick": 1, "thorough": 1}},
-            {"name": "TestC10", "quick": 30000, "thorough": 2000000},
+            {"name": "TestC10", "quick": 100000, "thorough": 2000000},
         ],
     },
     "C11": {
@@ -287,7 +289,7 @@ CHECKS = {
         "level_text": "exploration: generated operation sequences on one row with net-update laws checked after every step",
         "level_note": "the merge of reference-driven changes into a transaction is additionally exercised by every L1 history (checkUpdate in C03/C04/C06)",
         "technique": "property-based testing (rapid): stateful sequences, algebraic net-update laws against first-old/last-new",
-        "tests": [{"name": "TestC11", "quick": 30000, "thorough": 2000000}],
+        "tests": [{"name": "TestC11", "quick": 100000, "thorough": 2000000}],
     },
     "C13": {
         "rule": "model family in {hand-written struct cloned through JSON (15 mapped fields of every kind), generated struct with its own deep copy "
@@ -308,10 +310,11 @@ CHECKS = {
         "level_text": "exploration: generated models x read paths x caller mutations, snapshot-equality oracle and Clone/Equal algebraic laws",
         "level_note": "memory sharing is detected through reflect pointers and by observing mutations; generated deep-copy code for slices/maps is checked in C20",
         "technique": "property-based testing (rapid): aliasing probes (mutate-and-reread) + algebraic laws",
-        "tests": [{"name": "TestC13", "quick": 12000, "thorough": 800000},
-                  {"name": "TestC13API", "quick": 1600, "thorough": 60000}],
+        "tests": [{"name": "TestC13", "quick": 50000, "thorough": 800000},
+                  {"name": "TestC13API", "quick": 5000, "thorough": 60000}],
     },
     "C14": {
+        "procs": 8,
         "rule": "cache level, built with -race: 1-3 handlers are registered, the dispatcher runs, and a history of 1-14 notifications computed by "
                 "the reference model (inserts, modifies, deletes incl. GC and weak pruning; update2 and update encodings) is applied while "
                 "the first handler blocks on a harness channel: a drawn word over {apply next notification, release next event, stop the "
@@ -330,7 +333,7 @@ CHECKS = {
         "level_note": "the interleaving of the two goroutines is controlled only through the handler gate; finer schedules are the Go scheduler's",
         "technique": "property-based testing (rapid): history replay oracle over event logs, harness-gated schedules, race detector as instrumented oracle",
         "race": True,
-        "tests": [{"name": "TestC14", "quick": 2400, "thorough": 120000}],
+        "tests": [{"name": "TestC14", "quick": 6000, "thorough": 120000}],
     },
     "C01": {
         "rule": "wire level: a generated schema, libovsdb's server on a unix socket, a plain writer client and 1-2 monitoring clients with 1-2 "
@@ -354,7 +357,7 @@ CHECKS = {
         "level_text": "exploration: generated schemas x histories x monitor configurations x establishment points x reply/notification order, whole-cache comparison after every step",
         "level_note": "the window order is forced through the verif hook monitor:reply; every other ordering is whatever the two goroutines do",
         "technique": "property-based testing (rapid): stateful wire-level histories with a harness-owned pause point, cache-vs-database oracle",
-        "tests": [{"name": "TestC01", "quick": 900, "thorough": 60000}],
+        "tests": [{"name": "TestC01", "quick": 3000, "thorough": 60000}],
     },
     "C07": {
         "rule": "TestC07 (wire): 2-4 raw JSON-RPC peers (no libovsdb client code) register monitors after a drawn prefix of the history: every "
@@ -378,8 +381,8 @@ CHECKS = {
         "level_note": "messages are counted between Transact returns: the server delivers notifications (and waits for the peer's reply) before answering transact",
         "technique": "property-based testing (rapid): raw-peer replicas with an independent update/update2 applier, metamorphic filter law against the database difference",
         "tests": [
-            {"name": "TestC07", "quick": 1200, "thorough": 80000},
-            {"name": "TestC07L1", "quick": 1600, "thorough": 120000},
+            {"name": "TestC07", "quick": 4000, "thorough": 80000},
+            {"name": "TestC07L1", "quick": 6000, "thorough": 120000},
         ],
     },
     "C16": {
@@ -415,10 +418,11 @@ CHECKS = {
         "tests": [
             {"name": "TestC16Fixed", "kind": "plain", "quick": 8, "thorough": 16, "shards": {"quick": 8, "thorough": 16}},
             {"name": "TestC16", "quick": 320, "thorough": 1600},
-            {"name": "TestC16ReconnectWindow", "quick": 1200, "thorough": 40000},
+            {"name": "TestC16ReconnectWindow", "quick": 3000, "thorough": 40000},
         ],
     },
     "C17": {
+        "procs": 8,
         "rule": "built with -race. One server; 2-5 clients run drawn programs of 3-14 transactions each concurrently (counter += d, insert-if-absent "
                 "on a unique index value shared with other clients, move a strong reference between two parents, compare-and-set via "
                 "wait+update), every transaction also inserting a uniquely tagged log row; 1-3 raw monitoring peers (monitor / monitor_cond on "
@@ -442,10 +446,11 @@ CHECKS = {
         "race": True,
         "tests": [
             {"name": "TestC17MonitorWindow", "kind": "plain", "quick": 1, "thorough": 1, "shards": {"quick": 1, "thorough": 1}},
-            {"name": "TestC17", "quick": 160, "thorough": 6400},
+            {"name": "TestC17", "quick": 240, "thorough": 6400},
         ],
     },
     "C18": {
+        "procs": 8,
         "rule": "built with -race. The client talks to the server through the harness proxy, which can answer chosen methods with a JSON-RPC error "
                 "('unknown method' = what a server lacking the method says). TestC18Enumerated enumerates completely 23 ways an API call can fail "
                 "(Monitor with option errors / no tables / unknown table / unsupported method / cancelled context / not connected / refused by the "
@@ -501,7 +506,7 @@ CHECKS = {
         "level_note": "trusts go/types (source importer) and the go tool; a failing batch is attributed to its package and schema from the tool output",
         "technique": "property-based testing (rapid): generate-compile-run pipeline with type-level and behavioural oracles",
         "tests": [
-            {"name": "TestC20", "quick": 320, "thorough": 24000, "shards": {"quick": 4, "thorough": 16}},
+            {"name": "TestC20", "quick": 480, "thorough": 24000, "shards": {"quick": 12, "thorough": 16}},
             {"name": "TestC20Compiled", "quick": 4, "thorough": 160, "shards": {"quick": 2, "thorough": 16}},
         ],
     },
